@@ -127,7 +127,15 @@ class VanillaSimulaQronExecutioner(Executor):
             subroutine_id=subroutine_id,
             instr=instr,
         )
-        yield self.cmd_new(physical_address=physical_address)
+        try:
+            yield self.cmd_new(physical_address=physical_address)
+        except Exception:
+            # The virtual node refused the qubit: undo the allocation done by the base class, otherwise the
+            # address stays mapped to a physical ID without a qubit and stopping the application fails
+            unit_module = self._get_unit_module(subroutine_id)
+            unit_module[unit_module.index(physical_address)] = None
+            self._used_physical_qubit_addresses.discard(physical_address)
+            raise
 
     @inlineCallbacks
     def cmd_new(self, physical_address):
